@@ -320,6 +320,7 @@ func C11(ctx *core.Ctx) {
 	}
 	ctx.Rule("C11.R1", "panic containment: Compile/Audit run under main's deferred recover; no goroutines in compiler packages; no process exit outside main", 4)
 	ctx.Rule("C11.R2", "recursion classification: structural / visited-guarded / validated-acyclic, else unguarded", 30)
+	c11SwitchExhaustive(ctx, cc)
 	c11KeyValue(ctx, cc)
 	c11GoNames(ctx, cc)
 	ctx.Rule("C11.R6", "alias agreement: every switch of a generator (or the parser) over the IDL type name handles `byte` and `i8` alike, so that no valid spelling falls into a panicking default", 20)
